@@ -49,7 +49,7 @@ def read_text(*parts):
 
 def conn_fn_item(key, name, contract, vacuity, extra_anchors=None):
     return {"key": key, "file": PP + "connection.rs", "kind": "impl_fn", "name": name, "rules": CONN_RULES,
-            "macro_file": PP + "connection.rs", "statics": STATICS, "subst": CONN_SUBST,
+            "macro_file": PP + "connection.rs", "statics": STATICS, "subst": CONN_SUBST, "select_cancel": ["keep_alive"],
             "anchors": vxlib.anchors_for(contract, vacuity) + (extra_anchors or [])}
 
 
